@@ -275,3 +275,66 @@ def run_marking_form_case(v21, ti, fi):
         return type(back) is type(md) and isinstance(back.definition, want_cls) and back.serialize() == text
     finally:
         restore(saved)
+
+
+# ---------------------------------------------------------------- custom types may declare every property kind, also as list elements
+PROP_KINDS = [
+    ("string", lambda: P.StringProperty(), "v"), ("integer", lambda: P.IntegerProperty(), 0), ("float", lambda: P.FloatProperty(), 0.5),
+    ("boolean", lambda: P.BooleanProperty(), False), ("timestamp", lambda: P.TimestampProperty(), "2020-01-01T00:00:00.120Z"),
+    ("binary", lambda: P.BinaryProperty(), "YWJj"), ("hex", lambda: P.HexProperty(), "00ff"), ("enum", lambda: P.EnumProperty(["a", "b"]), "b"),
+    ("open vocabulary", lambda: P.OpenVocabProperty(["a", "b"]), "zz"), ("dictionary", lambda: P.DictionaryProperty(spec_version="2.1"), {"key": 1}),
+    ("hashes", lambda: P.HashesProperty(["MD5"], spec_version="2.1"), {"MD5": "0" * 32}),
+    ("reference", lambda: P.ReferenceProperty(valid_types="identity", spec_version="2.1"), "identity--311b2d2d-f010-4473-83ec-1edf84858f4c"),
+    ("embedded object", lambda: P.EmbeddedObjectProperty(stix2.v21.KillChainPhase), {"kill_chain_name": "k", "phase_name": "p"}),
+]
+NPK = len(PROP_KINDS)
+
+
+def custom_property_kinds(ki: int, as_list: bool, kind: int) -> bool:
+    """
+    pre: 0 <= ki < NPK and 0 <= kind <= 2
+    post: _
+    """
+    ki, as_list, kind = pick(ki, NPK), bool(as_list) and True or False, pick(kind, 3)
+    with Native():
+        ok = run_prop_kind_case(ki, as_list, kind)
+    V.reached()
+    return ok
+
+
+def run_prop_kind_case(ki, as_list, kind):
+    """a custom object / observable / extension declaring a property of each kind (single or as ListProperty) accepts a legal value,
+    serializes it, and parses its own serialization back to an equal object in strict mode"""
+    name, mk, val = PROP_KINDS[ki]
+    prop = P.ListProperty(mk()) if as_list else mk()
+    value = [val, val] if as_list else val
+    saved = snapshot()
+    try:
+        uu = "311b2d2d-f010-4473-83ec-1edf84858f4c"
+        if kind == 0:
+            @stix2.v21.CustomObject("x-kinds", [("p_val", prop)])
+            class K(object):
+                pass
+            o = K(p_val=value)
+        elif kind == 1:
+            @stix2.v21.CustomObservable("x-kinds-sco", [("name", P.StringProperty(required=True)), ("p_val", prop)], ["name"])
+            class K(object):
+                pass
+            o = K(name="n", p_val=value)
+        else:
+            @stix2.v21.CustomExtension("extension-definition--" + uu, [("p_val", prop)])
+            class K(object):
+                extension_type = "property-extension"
+            o = stix2.v21.Identity(name="n", identity_class="individual", extensions={"extension-definition--" + uu: {"extension_type": "property-extension", "p_val": value}})
+        text = o.serialize()
+        back = stix2.parse(text, allow_custom=False)
+        if type(back) is not type(o) or back != o or back.serialize() != text:
+            return False
+        j = json.loads(text)
+        got = j["p_val"] if kind != 2 else j["extensions"]["extension-definition--" + uu]["p_val"]
+        if name == "timestamp":
+            inst = stix2.utils.parse_into_datetime
+            return [inst(x) for x in (got if as_list else [got])] == [inst(x) for x in (value if as_list else [value])]
+        return got == value
+    finally:
+        restore(saved)
